@@ -4,7 +4,7 @@
      S <dom> c0 .. cn      solve on a polynomial expression (numbers first, then solve_poly)
      H c0 .. cn            solve_poly_heuristics
      Q n0 .. ;; d0 ..      solve_rational on numerator / denominator coefficient lists
-     L n a11 .. a1n b1 ... linsolve on the augmented n x (n+1) matrix (also M, N)
+     L n a11 .. a1n b1 ... linsolve_dense on the augmented n x (n+1) matrix;  M, N: linsolve_helper on (A, b)
    output:
      ALTS k ;<t> <t> ...;<t> ...   a FiniteSet: k alternatives, each a list of templates
                                     (q n d) I (neg a) (add a b) (sub a b) (mul a b) (div a b)
@@ -19,6 +19,7 @@ let rec int_of_pos = function XH -> 1 | XO p -> 2 * int_of_pos p | XI p -> 2 * i
 let int_of_z = function Z0 -> 0 | Zpos p -> int_of_pos p | Zneg p -> - (int_of_pos p)
 let rec nat_of_int (n : int) : nat = if n <= 0 then O else S (nat_of_int (n - 1))
 let int_of_n = function N0 -> 0 | Npos p -> int_of_pos p
+let n_of_int (n : int) : n = if n = 0 then N0 else Npos (pos_of_int n)
 
 let z10 = z_of_int 10
 
@@ -58,6 +59,9 @@ let string_of_q (x : q) : string =
   match x.qden with
   | XH -> string_of_z x.qnum
   | d -> string_of_z x.qnum ^ "/" ^ string_of_z (Zpos d)
+
+let show_qx (x : qx) : string =
+  match x with Fin q -> string_of_q (this q) | Zoo -> "zoo" | NaNv -> "nan"
 
 let rec show_rx (e : rx) : string =
   match e with
@@ -104,16 +108,25 @@ let run_line (line : string) : string =
   | "Q" :: rest ->
       let (n, d) = split_at_sep rest in
       show_res show_sres (solve_rational (List.map q_of_string n) (List.map q_of_string d))
-  | ("L" | "M" | "N") :: n :: ents ->
+  | (("L" | "M" | "N") as k) :: n :: ents ->
       let n = int_of_string n in
       let ents = Array.of_list (List.map q_of_string ents) in
       if Array.length ents <> n * (n + 1) then "BADCASE" else begin
-        let a = ref [] and b = ref [] in
-        for i = n - 1 downto 0 do
-          b := ents.(i * (n + 1) + n) :: !b;
-          for j = n - 1 downto 0 do a := ents.(i * (n + 1) + j) :: !a done
-        done;
-        show_res (fun xs -> "X:" ^ String.concat "," (List.map string_of_q xs)) (linsolve (nat_of_int n) !a !b)
+        let fin x = Fin (q2Qc x) in
+        let nn = n_of_int n in
+        let show xs = "X:" ^ String.concat "," (List.map show_qx xs) in
+        if k = "L" then
+          (* linsolve(DenseMatrix): the augmented n x (n+1) matrix *)
+          show_res show (linsolve_dense { drow = nn; dcol = n_of_int (n + 1); dm = Array.to_list (Array.map fin ents) })
+        else begin
+          (* linsolve(equations): linear_eqns_to_matrix yields A (n x n) and b (n x 1) *)
+          let a = ref [] and b = ref [] in
+          for i = n - 1 downto 0 do
+            b := fin ents.(i * (n + 1) + n) :: !b;
+            for j = n - 1 downto 0 do a := fin ents.(i * (n + 1) + j) :: !a done
+          done;
+          show_res show (linsolve_helper { drow = nn; dcol = nn; dm = !a } { drow = nn; dcol = n_of_int 1; dm = !b })
+        end
       end
   | _ -> "BADCASE"
 
